@@ -834,7 +834,7 @@ def _drop_zero(body):
 def run(ctx):
     if ctx.quick:
         depth, deep_depth = 2, None
-        ctx.budget = ctx.budget or 150
+        ctx.budget = ctx.budget or 300
         share = 1.0
     else:
         depth, deep_depth = 3, 4
